@@ -7,7 +7,7 @@
                                                   independent sub-agent) is applied to a scratch worktree and ALL checks must stay green
   tools/mutants.py seeded  [--only <id>...]       every /verif/seeded/<id>/patch.diff is applied to a scratch worktree and the
                                                   checks of meta.json's property must go red
-  options: --tier quick|thorough   --jobs N   --all-props (run all 20 checks on every mutant: false-alarm matrix)
+  options: --tier quick|thorough   --jobs N   --all-props (run all 20 checks on every mutant: false-alarm matrix)   --props Cxx... (exactly these checks)
 
 Nothing is changed in /repo itself: each mutant lives in its own `git worktree` under $TMPDIR which is removed afterwards.
 The checks are pointed at the worktree through VERIF_REPO.  Results are written to seeded/RESULTS.json and printed."""
@@ -17,6 +17,7 @@ from concurrent.futures import ThreadPoolExecutor
 VERIF = os.path.dirname(os.path.dirname(os.path.abspath(__file__)))
 REPO = "/repo"
 ALL = ["C%02d" % i for i in range(1, 21)]
+PROPS_OVERRIDE = []
 
 
 def sh(cmd, **kw):
@@ -91,7 +92,7 @@ def run_mutant(kind, key, entry, tier, all_props):
         if p.returncode:
             res["error"] = "patch does not apply: " + p.stderr[-300:]
             return res
-        props = ALL if all_props else entry["props"]
+        props = PROPS_OVERRIDE or (ALL if all_props else entry["props"])
         env = dict(os.environ, VERIF_REPO=wt, VERIF_SCRATCH=os.environ.get("TMPDIR", "/tmp"), VERIF_NO_EVIDENCE="1")
         for pid in props:
             t0 = time.time()
@@ -118,6 +119,10 @@ def main():
             tier = args[i + 1]; i += 2
         elif args[i] == "--jobs":
             jobs = int(args[i + 1]); i += 2
+        elif args[i] == "--props":                   # run exactly these checks on every mutant (e.g. to re-examine one cell of the false-alarm matrix)
+            i += 1
+            while i < len(args) and not args[i].startswith("--"):
+                PROPS_OVERRIDE.append(args[i]); i += 1
         elif args[i] == "--all-props":
             all_props = True; i += 1
         elif args[i] == "--only":
